@@ -43,6 +43,28 @@ def generate(rng, tier):
             if "<" in p or ">" in p:
                 # for brace-free patterns with an operator the two matchers agree
                 cases.append(Case("pat.match", [enc(p), enc(nm)], meta={"p": p, "n": nm}))
+    # length boundaries: bounds whose significant component lies beyond 255 / 1023 / 4095 / 8191 characters (a fixed-size
+    # buffer or a truncation would cut it off), as one bound and as the lower / upper bound of a range
+    for L in (254, 255, 256, 1022, 1023, 1024, 1025, 4095, 4096, 8191, 8192):
+        k = (L - 3) // 2
+        long_lo = "1" + ".0" * k + ".7"
+        for p in ("pkg>=" + long_lo + "<2", "pkg>=" + long_lo, "pkg>1<" + long_lo, "pkg<" + long_lo, "pkg>=" + long_lo + "<=" + long_lo):
+            cases.append(Case("dewey.new", [enc(p)], tag="long"))
+            for nm in ("pkg-1.0", "pkg-1", "pkg-1.5", "pkg-2", "pkg-" + long_lo, "pkg-1" + ".0" * k + ".8"):
+                cases.append(Case("dewey.match", [enc(p), enc(nm)], meta={"p": p, "n": nm}, tag="long"))
+                cases.append(Case("pat.match", [enc(p), enc(nm)], meta={"p": p, "n": nm}, tag="long"))
+    # line terminators and other control characters are ordinary characters of names and bases
+    for p, nm in (("foo>=1<3", "foo-2\nbar-x"), ("foo\nbar>=1", "foo\nbar-2"), ("foo>=1", "foo-2\n"), ("foo>=1", "foo-2\r\n"), ("foo>=1", "foo\n-2"),
+                  ("foo>=1", "foo-2\x00-x"), ("foo\x00>=1", "foo\x00-2"), ("foo>=1", "foo-2\u2028x-1"), ("foo>=1", "foo-\n2"), ("a\rb<2", "a\rb-1")):
+        cases.append(Case("dewey.match", [enc(p), enc(nm)], meta={"p": p, "n": nm}, tag="ctl"))
+        cases.append(Case("pat.match", [enc(p), enc(nm)], meta={"p": p, "n": nm}, tag="ctl"))
+    # an operator is an operator wherever it stands, also between '[' and ']'
+    for p in ("pkg[>1]", "pkg[<1>2]", "pkg[>=1]", "[pkg>1]", "pkg[>1", "pkg]>1[", "p[k]g>1", "pkg>[1]", "pkg[>1]<2", "[a-z]>1", "pkg[!>1]"):
+        cases.append(Case("dewey.new", [enc(p)], tag="bracket"))
+        cases.append(Case("pat.new", [enc(p)], tag="bracket"))
+        for nm in ("pkg[-2", "pkg[-0", "pkg-2", "pkg[-1]", "[pkg-2", "p[k]g-2", "pkg-[1]", "pkg-2]"):
+            cases.append(Case("dewey.match", [enc(p), enc(nm)], meta={"p": p, "n": nm}, tag="bracket"))
+            cases.append(Case("pat.match", [enc(p), enc(nm)], meta={"p": p, "n": nm}, tag="bracket"))
     # small scope, exhaustively: every string of length <= 4 (thorough: 5) over the characters Dewey::new looks at
     import itertools
     sigma = "p1<>=-."
